@@ -101,51 +101,66 @@ class ClientPubRun:
             conn = c._sock.peer.idx
             hs = w.net.hs
             n_ops = 1 + ch.pick("n.ops", 8)
-            for i in range(n_ops):
-                kind = ch.weighted("op.kind", [(4, "signal"), (4, "message"), (2, "forward"), (1, "bad_dest")])
-                dm = ch.choose("op.dm", [0, 0, 30, 90, 77, 199])
-                dh = ch.choose("op.dh", [0, 0, 1, 5, host])
-                if kind == "signal":
-                    tt = ch.choose("op.sig", [1000, 0, 62, 9999])
-                    c.send_signal(tt, dest_mod_id=dm, dest_host_id=dh)
-                    self.sent.append(dict(api=f"send_signal({tt}, dest_mod_id={dm}, dest_host_id={dh})", type=tt, src=my_id,
-                                          src_host=host, dm=dm, dh=dh, payload=b""))
-                elif kind == "message":
-                    d = cls()
-                    d.n = 100 + i
-                    d.arr[:] = [i * 3 + k for k in range(10)]
-                    c.send_message(d, dest_mod_id=dm, dest_host_id=dh)
-                    self.sent.append(dict(api=f"send_message(VERIF_PUB n={100 + i}, dest_mod_id={dm}, dest_host_id={dh})",
-                                          type=USER_T, src=my_id, src_host=host, dm=dm, dh=dh, payload=bytes(d)))
-                elif kind == "forward":
-                    # a header the caller filled in himself is sent as it is
-                    h = c._header_cls()
-                    d = cls()
-                    d.n = 500 + i
-                    h.msg_type = USER_T
-                    h.src_mod_id = ch.choose("fw.src", [my_id, 55])
-                    h.src_host_id = ch.choose("fw.sh", [host, 2])
-                    h.dest_mod_id = dm
-                    h.dest_host_id = dh
-                    h.send_time = 77.0 + i
-                    c.forward_message(h, d)
-                    self.sent.append(dict(api=f"forward_message(header src={h.src_mod_id}/{h.src_host_id} dest={dm}/{dh})",
-                                          type=USER_T, src=h.src_mod_id, src_host=h.src_host_id, dm=dm, dh=dh,
-                                          payload=bytes(d)))
-                else:
-                    bad_dm = ch.choose("op.baddm", [-1, 1000, None])
-                    try:
-                        if bad_dm is None:
-                            c.send_signal(1000, dest_mod_id=0, dest_host_id=ch.choose("op.baddh", [-1, 6, 100]))
-                        else:
-                            c.send_signal(1000, dest_mod_id=bad_dm, dest_host_id=0)
-                        res.add(self.prop, "client_accepts_bad_destination",
-                                "send_signal accepted a destination outside the valid range")
-                    except (InvalidDestinationModule, InvalidDestinationHost):
-                        res.probes["client_refused_bad_destination"] += 1
-                self.t(self.sent[-1]["api"] if kind != "bad_dest" else "send_signal with a destination out of range")
-                if ch.flag("op.step", 1, 2):
-                    w.quiesce()
+            from pyrtma.exceptions import ConnectionLost
+            try:
+                for i in range(n_ops):
+                    kind = ch.weighted("op.kind", [(4, "signal"), (4, "message"), (2, "forward"), (1, "bad_dest")])
+                    dm = ch.choose("op.dm", [0, 0, 30, 90, 77, 199])
+                    dh = ch.choose("op.dh", [0, 0, 1, 5, host])
+                    if kind == "signal":
+                        tt = ch.choose("op.sig", [1000, 0, 62, 9999])
+                        c.send_signal(tt, dest_mod_id=dm, dest_host_id=dh)
+                        self.sent.append(dict(api=f"send_signal({tt}, dest_mod_id={dm}, dest_host_id={dh})", type=tt, src=my_id,
+                                              src_host=host, dm=dm, dh=dh, payload=b""))
+                    elif kind == "message":
+                        d = cls()
+                        d.n = 100 + i
+                        d.arr[:] = [i * 3 + k for k in range(10)]
+                        c.send_message(d, dest_mod_id=dm, dest_host_id=dh)
+                        self.sent.append(dict(api=f"send_message(VERIF_PUB n={100 + i}, dest_mod_id={dm}, dest_host_id={dh})",
+                                              type=USER_T, src=my_id, src_host=host, dm=dm, dh=dh, payload=bytes(d)))
+                    elif kind == "forward":
+                        # a header the caller filled in himself is sent as it is
+                        h = c._header_cls()
+                        d = cls()
+                        d.n = 500 + i
+                        h.msg_type = USER_T
+                        h.src_mod_id = ch.choose("fw.src", [my_id, 55])
+                        h.src_host_id = ch.choose("fw.sh", [host, 2])
+                        h.dest_mod_id = dm
+                        h.dest_host_id = dh
+                        h.send_time = 77.0 + i
+                        # (a header taken over from a message received earlier still carries that message's size: the
+                        # size on the wire is the size of the data that is handed over)
+                        stale = ch.choose("fw.stale", [0, 0, 104, 4, 65535])
+                        if stale:
+                            h.num_data_bytes = stale
+                            res.probes["forward_with_stale_size_field"] += 1
+                        c.forward_message(h, d)
+                        self.sent.append(dict(api=f"forward_message(header src={h.src_mod_id}/{h.src_host_id} dest={dm}/{dh})",
+                                              type=USER_T, src=h.src_mod_id, src_host=h.src_host_id, dm=dm, dh=dh,
+                                              payload=bytes(d)))
+                    else:
+                        bad_dm = ch.choose("op.baddm", [-1, 1000, None])
+                        try:
+                            if bad_dm is None:
+                                c.send_signal(1000, dest_mod_id=0, dest_host_id=ch.choose("op.baddh", [-1, 6, 100]))
+                            else:
+                                c.send_signal(1000, dest_mod_id=bad_dm, dest_host_id=0)
+                            res.add(self.prop, "client_accepts_bad_destination",
+                                    "send_signal accepted a destination outside the valid range")
+                        except (InvalidDestinationModule, InvalidDestinationHost):
+                            res.probes["client_refused_bad_destination"] += 1
+                    self.t(self.sent[-1]["api"] if kind != "bad_dest" else "send_signal with a destination out of range")
+                    if ch.flag("op.step", 1, 2):
+                        w.quiesce()
+            except ConnectionLost:
+                # nothing in this workload takes the connection away: the manager gave the publisher up (or stopped
+                # reading) because of what the client put on the wire
+                res.add(self.prop, "client_publish_lost_connection",
+                        f"{self.sent[-1]['api'] if self.sent else 'publishing'}: the publishing call ended with "
+                        f"ConnectionLost although nothing disturbed the connection", sig="client_publish_lost_connection")
+                return res
             w.quiesce()
             # what the manager read from the client's connection after the handshake
             frames = [fr for fr in w.net.reads if fr.conn == conn and fr.complete
@@ -197,7 +212,15 @@ class ClientPubRun:
             res.probes["client_api_publishes"] += len(self.sent)
             # the other direction: the client as a subscriber reads what somebody else publishes, unchanged
             from pyrtma.exceptions import RTMAMessageError
-            c.subscribe([USER_T])
+            try:
+                c.subscribe([USER_T])
+            except ConnectionLost:
+                # (nothing in this workload takes the connection away)
+                res.add(self.prop, "client_publish_lost_connection",
+                        "after publishing, subscribe() ended with ConnectionLost although nothing disturbed the "
+                        "connection: the manager gave the client up because of what it had put on the wire",
+                        sig="client_publish_lost_connection")
+                return res
             w.quiesce()
             for j in range(1 + ch.pick("n.reads", 3)):
                 d = cls()
